@@ -345,7 +345,8 @@ VARIANTS += [
     ("C16-next-nostep", "C16", DT, "        dt = dt.add(days=1)\n        while dt.day_of_week != day_of_week:\n            dt = dt.add(days=1)", "        while dt.day_of_week != day_of_week:\n            dt = dt.add(days=1)", "NAV.shape"),
     ("C16-previous-add", "C16", DATE, "        dt = self.subtract(days=1)\n        while dt.day_of_week != day_of_week:\n            dt = dt.subtract(days=1)", "        dt = self.subtract(days=1)\n        while dt.day_of_week != day_of_week:\n            dt = dt.add(days=1)", "NAV.shape"),
     ("C16-validate-upper", "C16", DT, "        if day_of_week < WeekDay.MONDAY or day_of_week > WeekDay.SUNDAY:\n            raise ValueError(\"Invalid day of week\")\n\n        dt = self if keep_time else self.start_of(\"day\")\n\n        dt = dt.add(days=1)", "        if day_of_week < WeekDay.MONDAY:\n            raise ValueError(\"Invalid day of week\")\n\n        dt = self if keep_time else self.start_of(\"day\")\n\n        dt = dt.add(days=1)", "NAV.shape"),
-    ("C16-keep-time-inverted", "C16", DT, "        dt = self if keep_time else self.start_of(\"day\")\n\n        dt = dt.subtract(days=1)", "        dt = self.start_of(\"day\") if keep_time else self\n\n        dt = dt.subtract(days=1)", "NAV.shape"),
+    ("C16-keep-time-inverted", "C16", DT, "        origin = self if keep_time else self.start_of(\"day\")\n", "        origin = self.start_of(\"day\") if keep_time else self\n", "CALENDAR.tabulated"),
+    ("C16-previous-stall", "C16", DT, "        while dt.day_of_week != day_of_week or dt >= origin:\n            days += 1\n            dt = origin.subtract(days=days)", "        while dt.day_of_week != day_of_week:\n            dt = dt.subtract(days=1)", "CALENDAR.tabulated"),
     ("C16-rename-local", "C16", DATE, "        dt = self.subtract(days=1)\n        while dt.day_of_week != day_of_week:\n            dt = dt.subtract(days=1)\n\n        return dt", "        d = self.subtract(days=1)\n        while d.day_of_week != day_of_week:\n            d = d.subtract(days=1)\n\n        return d", None),
     ("C16-nth-range", "C16", DATE, "        dt = self.first_of(\"year\")\n        year = dt.year\n        for _ in range(nth - (1 if dt.day_of_week == day_of_week else 0)):", "        dt = self.first_of(\"year\")\n        year = dt.year\n        for _ in range(nth - (1 if dt.day_of_week != day_of_week else 0)):", "CLONE.shape"),
     ("C16-nth-no-shortcut-adj", "C16", DT, "        dt = self.first_of(\"month\")\n        check = dt.format(\"%Y-%M\")\n        for _ in range(nth - (1 if dt.day_of_week == day_of_week else 0)):", "        dt = self.first_of(\"month\")\n        check = dt.format(\"%Y-%M\")\n        for _ in range(nth):", "CLONE.shape"),
